@@ -1007,6 +1007,12 @@ func runBridgeMachine(c bmCase, which string, rec *ev.Recorder) *Failure {
 				}
 				s.labels["call-timeout"] = true
 			}
+			kk.IterateOutgoingBridgeCalls(sctx, func(oc *crosschaintypes.OutgoingBridgeCall) bool {
+				if mc := s.calls[bmKey(chn, oc.Nonce)]; mc != nil && mc.ResultAt != 0 && observedThisStep && post >= oc.Timeout {
+					s.labels["parked-result-outlives-timeout"] = true
+				}
+				return false
+			})
 			// refund records created by failed inbound calls
 			kk.IterateOutgoingBridgeCalls(sctx, func(oc *crosschaintypes.OutgoingBridgeCall) bool {
 				if _, known := s.calls[bmKey(chn, oc.Nonce)]; !known && oc.EventNonce != 0 {
@@ -1069,7 +1075,7 @@ func runBridgeMachine(c bmCase, which string, rec *ev.Recorder) *Failure {
 	case "C05":
 		nontrivial = s.labels["batch"] && (s.labels["cancel-after-batch"] || s.labels["out-of-order-batch-exec"] || s.labels["incfee"] || s.labels["batch-timeout"])
 	case "C06":
-		nontrivial = (s.labels["batch-timeout"] || s.labels["call-timeout"]) && (s.labels["batchexec"] || s.labels["call-executed-externally"] || s.labels["boundary-height"] || s.labels["older-batch-with-later-timeout"])
+		nontrivial = (s.labels["batch-timeout"] || s.labels["call-timeout"] || s.labels["parked-result-outlives-timeout"]) && (s.labels["batchexec"] || s.labels["call-executed-externally"] || s.labels["boundary-height"] || s.labels["older-batch-with-later-timeout"])
 	}
 	sigOps := ""
 	for _, op := range c.Ops {
